@@ -78,8 +78,9 @@ PROPS = {
         "theorems": ["swap_conserves", "route_conserves", "withdraw_conserves", "provide_multi_conserves", "single_first_leg_conserves",
                      "create_pool_conserves_partial", "config_conserves_partial", "bank_send_effect",
                      "MantraDex.C01Sys.pm_inv_step_partial", "MantraDex.C01Sys.pm_custody_reachable_partial", "MantraDex.C01Sys.pm_inv_init",
-                     "MantraDex.C01Sys.pm_inv_step", "MantraDex.C01Sys.pm_custody_reachable"],
-        "extra_modules": ["MantraDex.Properties.C01Sys"],
+                     "MantraDex.C01Sys.pm_inv_step", "MantraDex.C01Sys.pm_custody_reachable",
+                     "MantraDex.C02Sys.lp_inv_step", "MantraDex.C02Sys.lp_inv_reachable", "MantraDex.C02Sys.pm_lp_balance_step_partial"],
+        "extra_modules": ["MantraDex.Properties.C01Sys", "MantraDex.Properties.C02Sys"],
         "streams": {"pm_hist": (80, 4000), "faults": (30, 1500)},
         "what": "handler-level conservation law of the pool manager for every non-LP token: reserves' + outflow(messages) = reserves + inflow(funds) "
                 "for swap, routed swap (any length), withdraw, multi-asset deposit, pool creation (keeps nothing), config/ownership; the single-asset "
@@ -88,7 +89,10 @@ PROPS = {
                 "(C01Sys): 'PM bank balance >= sum of reserves for every non-factory denom' + well-formedness + empty single-side buffer is preserved by "
                 "every whole transaction (nested farm-manager calls, reply modes, rollback, injected faults) INCLUDING the single-asset deposit "
                 "(first leg, self-swap, reply with exact balance checks, second leg; simulation = swap closes the accounting) and holds in every "
-                "reachable state (pm_inv_step, pm_custody_reachable, pm_inv_init; the _partial versions are the intermediate result)",
+                "reachable state (pm_inv_step, pm_custody_reachable, pm_inv_init; the _partial versions are the intermediate result). LP CLAUSE (C02Sys): the pool manager "
+                "holds the locked minimum of every funded pool in every reachable state (lp_inv_step / lp_inv_reachable), and a contract call changes its balance of a pool's LP token "
+                "only by minting that minimum at the first deposit (pm_lp_balance_step_partial: unless the pool manager is itself named as LP receiver, fee collector or farm owner - "
+                "three proved-necessary exclusions with evaluated counterexamples)",
         "assumptions": ["the lift through the runtime to whole transactions is proved (C01Sys) for every transaction kind, for non-factory denoms (LP tokens "
                         "are factory denoms), for the runtime/bank MODEL (trusted, exercised by the streams), account-signed transactions and a pool creation "
                         "fee <= u128::MAX/2; on the implementation it is validated by the custody + excess monitors on every step of the history and fault streams",
@@ -190,12 +194,22 @@ PROPS = {
     "C02": {
         "module": "MantraDex.Properties.C02", "ns": "MantraDex.C02",
         "theorems": ["cp_mint_formula", "cp_mint_le_share", "cp_value_per_lp_mono", "cp_first_mint", "withdraw_bounds", "withdraw_refunds_are_floor",
-                     "withdraw_value_per_lp_mono", "withdraw_redeemable", "lp_only_minted_by_deposit_burned_by_withdraw", "ss_later_mint_shape"],
+                     "withdraw_value_per_lp_mono", "withdraw_redeemable", "lp_only_minted_by_deposit_burned_by_withdraw", "ss_later_mint_shape",
+                     "MantraDex.C02Sys.lp_inv_step", "MantraDex.C02Sys.lp_inv_init_partial", "MantraDex.C02Sys.lp_inv_reachable",
+                     "MantraDex.C02Sys.lp_supply_ge_min_reachable", "MantraDex.C02Sys.lp_supply_moves_only_by_deposit_or_withdrawal",
+                     "MantraDex.C02Sys.lp_funded_step", "MantraDex.C03Sys.cp_value_per_lp_step", "MantraDex.C03Sys.cp_value_per_lp_reachable"],
+        "extra_modules": ["MantraDex.Properties.C02Sys", "MantraDex.Properties.C03Sys"],
         "streams": {"mintmath": (3000, 150000), "pm_hist": (80, 4000)},
         "what": "constant product: later mint = min over the two assets of floor(deposit*supply/reserve) <= the proportional contribution; x*y/supply^2 "
                 "never decreases through a deposit or a withdrawal; first mint + locked 1000 = floor(sqrt(d0*d1)); a withdrawal pays floor(reserve*burned/"
                 "supply) per asset (<= pro rata, > pro rata - 1) and any LP amount worth >= 1 unit of an asset gets a non-zero refund (after the F-02 fix); "
-                "only provide_liquidity mints and only withdraw_liquidity burns LP; stableswap later mint = floor(supply*(D1adj-D0)/D0) with the code's D",
+                "only provide_liquidity mints and only withdraw_liquidity burns LP; stableswap later mint = floor(supply*(D1adj-D0)/D0) with the code's D. "
+                "THROUGH THE RUNTIME (C02Sys, C03Sys; deployments where no pool lists an LP token as an asset and the denom fee is not an LP token): across every whole "
+                "transaction and history the supply of a pool's LP token moves only in a ProvideLiquidity (up) or a WithdrawLiquidity of that pool (down) sent to the pool "
+                "manager; once funded the pool manager holds the locked minimum for ever, so the LP supply of a funded pool never falls below it (lp_supply_ge_min_reachable, "
+                "lp_funded_step); and for every constant-product pool x*y/supply^2 never decreases through ANY transaction of any kind by anybody (swaps, routes, deposits of "
+                "every shape incl. single-asset and locked, withdrawals), and x*y itself never decreases while the supply is unchanged (cp_value_per_lp_step, "
+                "cp_value_per_lp_reachable)",
         "assumptions": ["stableswap: the link from the code's D to the exact invariant (two units) is C19's accuracy clause: validated by the exact-D "
                         "monitor monSsLp (value per LP never decreases; first mint = D within 2 units inside the supported range), not proved"],
     },
@@ -214,10 +228,15 @@ PROPS = {
 
     "C03": {
         "module": "MantraDex.Properties.C03", "ns": "MantraDex.C03",
-        "theorems": ["cp_gross_formula", "cp_swap_k_mono", "performSwap_k_mono", "cp_round_trip_no_profit", "ss_swap_D_witness"],
+        "theorems": ["cp_gross_formula", "cp_swap_k_mono", "performSwap_k_mono", "cp_round_trip_no_profit", "ss_swap_D_witness",
+                     "MantraDex.C03Sys.cp_value_per_lp_step", "MantraDex.C03Sys.cp_value_per_lp_reachable"],
+        "extra_modules": ["MantraDex.Properties.C03Sys"],
         "streams": {"swapmath": (4000, 200000), "pm_hist": (60, 3000)},
         "what": "constant product: gross output = floor(Y*o/(X+o)); x*y never decreases through compute_swap / perform_swap for every reserve, "
-                "offer and fee setting incl. zero fees; a swap-and-swap-back round trip never returns more than was put in. Stableswap: the "
+                "offer and fee setting incl. zero fees; a swap-and-swap-back round trip never returns more than was put in. THROUGH THE RUNTIME (C03Sys): for every "
+                "constant-product pool, across every whole transaction of any kind by any account (direct swaps, every hop of a route incl. routes visiting the pool several times, the "
+                "internal swap of a single-asset deposit, deposits, withdrawals, nested calls, rollbacks, faults) and hence every history, x*y/supply^2 never decreases and x*y never "
+                "decreases while the LP supply is unchanged - no sequence of transactions extracts value from the pool. Stableswap: the "
                 "statement is false for the code (F-03, output rounded up): ss_swap_D_witness proves the negation on a concrete input by kernel "
                 "evaluation; every observed swap is classified by the exact-invariant monitor (Spec/Invariant.lean)",
         "assumptions": ["stableswap half is NOT proved: known finding F-03 (KNOWN-FINDING line), monitor class C03-ss-rounding; anything beyond that class is a violation"],
